@@ -147,6 +147,9 @@ func (e *Env) eval(ex contract.Expr) Val {
 		c := e.evalBool(n.C)
 		return iteVal(c, e.eval(n.A), e.eval(n.B))
 	case *contract.Quant:
+		if v := e.expandQuant(n); v != nil {
+			return v
+		}
 		sub := *e
 		sub.vars = map[string]Val{}
 		for k, v := range e.vars {
@@ -895,4 +898,65 @@ func (e *Env) captured(f VFunc, fnref, name string) Val {
 	}
 	e.fail("captured: %s has no free variable %s", fnref, name)
 	return nil
+}
+
+// expandQuant instantiates `forall i :: lo <= i && i < hi ==> P(i)` when the range is concrete
+// and small (unwinding mode: the instances usually fold to constants).
+func (e *Env) expandQuant(q *contract.Quant) Val {
+	if e.x.Mode == ModeProof || !q.Forall || len(q.Vars) != 1 {
+		return nil
+	}
+	imp, ok := q.Body.(*contract.Binary)
+	if !ok || imp.Op != "==>" {
+		return nil
+	}
+	guard, ok := imp.X.(*contract.Binary)
+	if !ok || guard.Op != "&&" {
+		return nil
+	}
+	name := q.Vars[0].Name
+	var lo, hi *T
+	for _, g := range []contract.Expr{guard.X, guard.Y} {
+		b, ok := g.(*contract.Binary)
+		if !ok {
+			return nil
+		}
+		xi, xIsVar := b.X.(*contract.Ident)
+		yi, yIsVar := b.Y.(*contract.Ident)
+		switch {
+		case b.Op == "<=" && yIsVar && yi.Name == name && !mentions(b.X, name):
+			lo = e.evalInt(b.X)
+		case b.Op == "<" && xIsVar && xi.Name == name && !mentions(b.Y, name):
+			hi = e.evalInt(b.Y)
+		case b.Op == "<=" && xIsVar && xi.Name == name && !mentions(b.Y, name):
+			hi = term.Add(e.evalInt(b.Y), term.I(1))
+		default:
+			return nil
+		}
+	}
+	if lo == nil || hi == nil {
+		return nil
+	}
+	l, ok1 := lo.Int64()
+	h, ok2 := hi.Int64()
+	if !ok1 || !ok2 || h-l > 1<<16 {
+		return nil
+	}
+	sub := *e
+	sub.vars = map[string]Val{}
+	for k, v := range e.vars {
+		sub.vars[k] = v
+	}
+	var cs []*T
+	for i := l; i < h; i++ {
+		sub.vars[name] = VT{term.I(i), tyInt}
+		c := sub.evalBool(imp.Y)
+		if c == term.False {
+			return VT{term.False, tyBool}
+		}
+		if c != term.True {
+			cs = append(cs, c)
+		}
+	}
+	return VT{term.And(cs...), tyBool}
 }
